@@ -50,18 +50,15 @@ impl<A: smallvec::Array<Item = u8>> Parse for SmallString<A> {
 		match parser.next_char()? {
 			(_, Some('"')) => {
 				let mut result = Self::new();
-				let mut high_surrogate: Option<(usize, u32)> = None;
+				let mut high_surrogate: Option<(Span, u32)> = None;
 				loop {
 					let c = match parser.next_char()? {
-						(p, Some('"')) => {
-							if let Some((p_high, high)) = high_surrogate {
+						(_, Some('"')) => {
+							if let Some((high_span, high)) = high_surrogate {
 								if parser.options.accept_truncated_surrogate_pair {
 									result.push('\u{fffd}');
 								} else {
-									break Err(Error::MissingLowSurrogate(
-										Span::new(p_high, p),
-										high as u16,
-									));
+									break Err(Error::MissingLowSurrogate(high_span, high as u16));
 								}
 							}
 
@@ -79,7 +76,8 @@ impl<A: smallvec::Array<Item = u8>> Parse for SmallString<A> {
 								let codepoint = parse_hex4(parser)?;
 
 								match high_surrogate.take() {
-									Some((p_high, high)) => {
+									Some((high_span, high)) => {
+										let p_high = high_span.start();
 										if (0xdc00..=0xdfff).contains(&codepoint) {
 											let low = codepoint;
 											let codepoint =
@@ -103,7 +101,8 @@ impl<A: smallvec::Array<Item = u8>> Parse for SmallString<A> {
 											if (0xd800..=0xdbff).contains(&codepoint) {
 												// This escape is itself a high surrogate:
 												// it may still be completed by a low one.
-												high_surrogate = Some((p, codepoint));
+												high_surrogate =
+													Some((Span::new(p, parser.position), codepoint));
 												continue;
 											}
 
@@ -130,7 +129,8 @@ impl<A: smallvec::Array<Item = u8>> Parse for SmallString<A> {
 									}
 									None => {
 										if (0xd800..=0xdbff).contains(&codepoint) {
-											high_surrogate = Some((p, codepoint));
+											high_surrogate =
+												Some((Span::new(p, parser.position), codepoint));
 											continue;
 										} else {
 											match char::from_u32(codepoint) {
@@ -156,16 +156,13 @@ impl<A: smallvec::Array<Item = u8>> Parse for SmallString<A> {
 						(p, unexpected) => break Err(Error::unexpected(p, unexpected)),
 					};
 
-					if let Some((p_high, high)) = high_surrogate.take() {
+					if let Some((high_span, high)) = high_surrogate.take() {
 						if parser.options.accept_truncated_surrogate_pair {
 							result.push('\u{fffd}');
 						} else {
 							// The span covers the high surrogate escape only
 							// (`uXXXX`), not the character that follows it.
-							break Err(Error::MissingLowSurrogate(
-								Span::new(p_high, p_high + 5),
-								high as u16,
-							));
+							break Err(Error::MissingLowSurrogate(high_span, high as u16));
 						}
 					}
 
